@@ -262,7 +262,8 @@ Definition m_search (c : call) : res :=
           if ((e1 <? s1) || (e2 <? s2))%nat then RErr EFault      (* seq[start:end] with end < start *)
           else
           let w1 := slice s1 e1 l1 in let w2 := slice s2 e2 l2 in
-          if (length w1 =? 0)%nat then RInt (if c_from_end c then Z.of_nat (length w2) else 0)
+          (* the empty pattern matches at the start (with :from-end at the end) of the searched range *)
+          if (length w1 =? 0)%nat then RInt (Z.of_nat (if c_from_end c then s2 + length w2 else s2))
           else if ((length w2 =? 0) || (length w2 <? length w1))%nat then RNil
           else
             let k1 := map (key_app (c_key c)) w1 in let k2 := map (key_app (c_key c)) w2 in
